@@ -121,7 +121,7 @@ class Driver:
         self.events = []  # model events
         self.snaps = []  # real snapshots, one per action
         self.actions = []
-        self.lost_before = collections.Counter()
+        self.excused = []  # ports whose loss by the current action falls under a known-finding key
 
     async def start(self):
         net = self.net
@@ -242,6 +242,7 @@ class Driver:
             self.events.append([PASV, i, 0, 0])
             if self.live(i):
                 others = [e["stage"] for e in self.inflight[i]]
+                oports = [e["port"] for e in self.inflight[i]]
                 self.raws[i].writer.write(a[2].encode() + b"\r\n")
                 new = await self.settle_and_collect()
                 codes = final_codes(self.raws[i].take())
@@ -250,6 +251,7 @@ class Driver:
                     # 421: the session ended; start-ups still in flight were cancelled by the finally block
                     if others:
                         cause = "cancel-at-2" if 2 in others else "cancel-at-1"
+                        self.excused = oports
                     self.inflight[i] = []
         elif kind == "resume":
             i, k, o = a[1], a[2], a[3]
@@ -269,13 +271,16 @@ class Driver:
                     c = self.conn_of(self.raws[i])
                     if c is not None and self.passive_port(c) is not None:
                         cause = "overlap"
+                        self.excused = [self.passive_port(c)]  # the listener about to be overwritten
                 others = [x["stage"] for j, x in enumerate(self.inflight[i]) if j != k]
+                oports = [x["port"] for j, x in enumerate(self.inflight[i]) if j != k]
                 e["fut"].set_result(None)
                 new = await self.settle_and_collect()
                 codes = final_codes(self.raws[i].take())
                 if not self.live(i):
                     if others:  # the session died (421 / OSError): its other start-ups were cancelled
                         cause = "cancel-at-2" if 2 in others else "cancel-at-1"
+                        self.excused = oports
                     self.inflight[i] = []
                 elif new:
                     self.inflight[i][k] = new[0]
@@ -303,6 +308,7 @@ class Driver:
                 stages = [e["stage"] for e in self.inflight[i]]
                 if stages:
                     cause = "cancel-at-2" if 2 in stages else "cancel-at-1"
+                    self.excused = [e["port"] for e in self.inflight[i]]
                 if how == "quit":
                     self.raws[i].writer.write(b"QUIT\r\n")
                 elif how == "drop":
@@ -317,6 +323,7 @@ class Driver:
             stages = [e["stage"] for i in range(len(self.raws)) if self.live(i) for e in self.inflight[i]]
             if stages:
                 cause = "cancel-at-2" if 2 in stages else "cancel-at-1"
+                self.excused = [e["port"] for i in range(len(self.raws)) if self.live(i) for e in self.inflight[i]]
             await self.server.close()
             self.closed = True
             await self.settle_and_collect()
@@ -330,6 +337,8 @@ class Driver:
         obs["missing"] = sorted(missing.elements())
         obs["extra"] = sorted(extra.elements())
         obs["cause"] = cause
+        obs["excused"] = sorted(self.excused)
+        self.excused = []
         self.actions.append(list(a))
         self.snaps.append(obs)
         return obs
@@ -435,12 +444,24 @@ def check_driver(ctx, d, msnaps, stream):
             )
         if newly or new_orph:
             ok = False
-            key = KEY_OF_CAUSE.get(real["cause"], "c11-lost-" + str(d.actions[k][0]))
-            ctx.violation(
-                f"port(s) {sorted(newly.elements())} lost, listener(s) {new_orph} orphaned by action {d.actions[k]} "
-                f"(pool {real['pool']}, configured {d.ports}) after {d.actions[: k + 1]}",
-                dict(replay, key=key, upto=k + 1),
-            )
+            # a known-finding key covers exactly the ports of the start-ups this action cancelled (F5) or
+            # the listener it overwrote (F5b); any other port lost by the same action is reported under
+            # the generic key, which is not listed
+            excused = collections.Counter(real.get("excused", []))
+            other_lost = newly - excused
+            other_orph = [p for p in new_orph if p not in excused]
+            if real["cause"] in KEY_OF_CAUSE and (newly & excused or [p for p in new_orph if p in excused]):
+                ctx.violation(
+                    f"port(s) {sorted((newly & excused).elements())} lost, listener(s) {[p for p in new_orph if p in excused]} orphaned "
+                    f"by action {d.actions[k]} ({real['cause']}; pool {real['pool']}, configured {d.ports}) after {d.actions[: k + 1]}",
+                    dict(replay, key=KEY_OF_CAUSE[real["cause"]], upto=k + 1),
+                )
+            if other_lost or other_orph:
+                ctx.violation(
+                    f"port(s) {sorted(other_lost.elements())} lost, listener(s) {other_orph} orphaned by action {d.actions[k]} "
+                    f"(pool {real['pool']}, configured {d.ports}) after {d.actions[: k + 1]}",
+                    dict(replay, key="c11-lost-" + str(d.actions[k][0]), upto=k + 1),
+                )
         prev_missing = missing
         prev_orphans = list(real["orphans"])
     if len(msnaps) != len(d.snaps):
@@ -750,7 +771,17 @@ def known(ctx):
         final = d.snaps[-1]
         lost = final["missing"]
         fid = ctx.match_known("", {"key": key})
-        ctx.extra.setdefault("witness_replays", {})[name] = {"pool_after_all_sessions_ended": final["pool"], "lost": lost, "orphans": final["orphans"]}
+        # a replay file per witness (deterministic content): bin/check C11 --replay evidence/replay/C11-witness-<name>.json
+        wfile = core.VERIF / "evidence" / "replay" / f"C11-witness-{name}.json"
+        wfile.parent.mkdir(parents=True, exist_ok=True)
+        payload = {"property": ID, "kind": "known-finding-witness", "theorem": "C11_pool_conserved_refuted_" + name,
+                   "replay": {"key": key, "ports": ports, "actions": [list(a) for a in actions]}}
+        txt = json.dumps(payload, indent=1)
+        if not wfile.exists() or wfile.read_text() != txt:
+            wfile.write_text(txt)
+        ctx.extra.setdefault("witness_replays", {})[name] = {
+            "pool_after_all_sessions_ended": final["pool"], "lost": lost, "orphans": final["orphans"],
+            "replay": f"evidence/replay/{wfile.name}"}
         if lost and fid:
             ctx.known_reproduced(fid, f"witness {name}: pool {final['pool']} of configured {ports}, orphan listeners {final['orphans']}")
         elif lost and not fid:
